@@ -107,9 +107,18 @@ def run(ctx) -> None:
   if not algo:
     raise AnalysisError('SuggestTrials: algorithm call (.Suggest) not found')
   if own is not None and pool is not None:
-    ok = own.id in dom[pool.id] and pool.id in dom[algo[0].id]
+    def first_use(defn):
+      """First node (in dominance order) that reads the list bound at `defn`."""
+      names = [t.id for t in defn.ast.targets if isinstance(t, ast.Name)]
+      users = [m for m in g.nodes if m is not defn and any(
+          isinstance(x, ast.Name) and isinstance(x.ctx, ast.Load) and x.id in names
+          and any(d.node_id == defn.id for d in rd.at(m, x.id)) for e_ in flow.node_exprs(m) for x in ast.walk(e_))]
+      tops = [m for m in users if all(m.id in dom[o.id] for o in users)]
+      return tops[0] if tops else None
+    uo, up = first_use(own), first_use(pool)
+    ok = uo is not None and up is not None and uo.id in dom[up.id] and uo is not up and up.id in dom[algo[0].id]
     ctx.check(ok, 'R1', 'source order own -> pool -> algorithm', where(fi, algo[0]),
-              'own-trial selection dominates the pool selection, which dominates the algorithm call',
+              'the first use of the own-trial list dominates the first use of the pool, which dominates the algorithm call',
               'the three sources are not consulted in the documented order',
               construct='source-order', func=fi.qualname)
   # ------------------------------------------------------------------ R2
